@@ -45,7 +45,7 @@ def reclaim_after_unlink(ctx, file_suffixes, rid="K4.reclaim-after-unlink"):
     for fn in facts.fns:
         if "/reclamation/" in fn.file:
             continue
-        if not any(fn.file.endswith(s) for s in file_suffixes):
+        if not any(s in fn.file for s in file_suffixes):
             continue
         for b, i, e, n in fn.events():
             if n["k"] != "call":
